@@ -122,6 +122,7 @@ class TLCResult:
         self.wall = 0.0
         self.prints = []          # PrintT lines
         self.last_l = None
+        self.failed_checks = []
 
 
 _scratch_n = [0]
@@ -232,6 +233,8 @@ def parse_tlc(path, res, rc):
             m = RE_L.match(line)
             if m:
                 res.last_l = int(m.group(1) or m.group(2))
+            if line.startswith('<<"CHECK-FAILED"'):
+                res.failed_checks.append(line.strip())
             if line.startswith("<<") and '"' in line[:6]:
                 res.prints.append(line.rstrip("\n"))
             if line.startswith("Error:") or "Exception" in line:
@@ -316,8 +319,10 @@ def validate_trace(prop, main, cfg, trace_path, parallel=None, timeout=900, heap
                 hstart -= 1
             ctx = lines[hstart:ln]
             detail = {"spec": main, "cfg": cfg, "chunk_line": ln, "trace_line": first + ln - 1, "reason": what,
-                      "violated": r.violated, "offending_event": lines[ln - 1] if 0 < ln <= len(lines) else None,
+                      "violated": r.violated, "failed_checks": r.failed_checks[-3:], "offending_event": lines[ln - 1] if 0 < ln <= len(lines) else None,
                       "history_prefix": ctx[-400:], "tlc_output": r.out}
+            if r.failed_checks and not r.violated:
+                what += ": " + r.failed_checks[-1]
             raise Violation(prop, what + (" (%s)" % r.violated if r.violated else ""), detail)
     for p, _, _ in chunks:
         try:
